@@ -782,3 +782,71 @@ def normalise_super(trees):
                         n.args = [ast.copy_location(ast.Name(id=sn, ctx=ast.Load()), sup)] + list(n.args)
                         count += 1
     return count
+
+
+def normalise_forwarding(trees):
+    """def m(self, *args, **kwargs): Base.m(self, *args, **kwargs); ...   ->   the explicit signature of Base.m.
+
+    A method that takes "whatever the base takes" and hands it on unchanged has the base method's signature: the rewrite gives it
+    that signature (names and defaults) and passes the parameters on by position.  Only when `args` / `kwargs` are used nowhere
+    else in the body, the base method is found by class name among the project's classes (walking up its own bases while it is
+    itself a pure forwarder) and has no * / ** parameters.  Returns the number of methods rewritten."""
+    classes = {}
+    for tree in trees:
+        for cls in ast.walk(tree):
+            if isinstance(cls, ast.ClassDef):
+                classes.setdefault(cls.name, cls)
+
+    def find(cname, mname, depth=0):
+        cls = classes.get(cname)
+        if cls is None or depth > 8:
+            return None
+        for fn in cls.body:
+            if isinstance(fn, ast.FunctionDef) and fn.name == mname:
+                return fn
+        for b in cls.bases:
+            bn = b.id if isinstance(b, ast.Name) else (b.attr if isinstance(b, ast.Attribute) else None)
+            r = find(bn, mname, depth + 1) if bn else None
+            if r is not None:
+                return r
+        return None
+    count = 0
+    changed = True
+    while changed:
+        changed = False
+        for cls in list(classes.values()):
+            for fn in cls.body:
+                if not isinstance(fn, ast.FunctionDef):
+                    continue
+                a = fn.args
+                if len(a.args) != 1 or a.vararg is None or a.kwarg is None or a.kwonlyargs or a.posonlyargs or fn.decorator_list:
+                    continue
+                sn, va, kw = a.args[0].arg, a.vararg.arg, a.kwarg.arg
+                calls = []
+                uses = 0
+                for n in ast.walk(fn):
+                    if isinstance(n, ast.Name) and n.id in (va, kw):
+                        uses += 1
+                    if isinstance(n, ast.Call) and isinstance(n.func, ast.Attribute) and n.func.attr == fn.name and isinstance(n.func.value, (ast.Name, ast.Attribute)) \
+                            and len(n.args) == 2 and isinstance(n.args[0], ast.Name) and n.args[0].id == sn and isinstance(n.args[1], ast.Starred) \
+                            and isinstance(n.args[1].value, ast.Name) and n.args[1].value.id == va and len(n.keywords) == 1 and n.keywords[0].arg is None \
+                            and isinstance(n.keywords[0].value, ast.Name) and n.keywords[0].value.id == kw:
+                        calls.append(n)
+                if len(calls) != 1 or uses != 2:
+                    continue
+                bname = calls[0].func.value.id if isinstance(calls[0].func.value, ast.Name) else calls[0].func.value.attr
+                target = find(bname, fn.name)
+                if target is None or target is fn:
+                    continue
+                ta = target.args
+                if ta.vararg is not None or ta.kwarg is not None or ta.kwonlyargs or ta.posonlyargs or not ta.args:
+                    continue
+                new = copy.deepcopy(ta)
+                new.args[0].arg = sn
+                fn.args = new
+                calls[0].args = [ast.Name(id=sn, ctx=ast.Load())] + [ast.Name(id=p.arg, ctx=ast.Load()) for p in new.args[1:]]
+                calls[0].keywords = []
+                ast.fix_missing_locations(fn)
+                count += 1
+                changed = True
+    return count
